@@ -922,7 +922,20 @@ def rule_pairs(eng, ctx):
                 elif pr.kind == "call":
                     # view pair of an object: (obj.getData(), obj.getLen()) — checked where the bytes are read (R3 pair_callers_ok)
                     pn = strip_all_casts(pa)
-                    if pn.get("k") == "call" and sa.get("k") == "call" and "obj" in pn and "obj" in sa and canon(pn["obj"]) == canon(sa["obj"]):
+                    if pn.get("k") == "call" and sa.get("k") == "call" and "obj" in pn and "obj" in sa and \
+                            (pn.get("callee") or {}).get("nm") == "getRawPayload" and (sa.get("callee") or {}).get("nm") == "getLength":
+                        # a payload's own bytes: data() and size() of its buffer — also with the length taken from another payload that the
+                        # live facts show to be equally long (comparing two payloads byte by byte after comparing their lengths)
+                        same = canon(pn["obj"]) == canon(sa["obj"])
+                        if not same:
+                            want = {canon(pn["obj"]) + "." + callee_name(sa), canon(sa)}
+                            for a in fs:
+                                if a[0] == "cmp" and a[2] == "==" and {canon(strip_all_casts(a[4])), canon(strip_all_casts(a[5]))} == \
+                                        {canon(strip_all_casts(dict(sa, obj=pn["obj"]))), canon(sa)}:
+                                    same = True
+                        ok = same
+                        why = "the payload's own data()/size() pair" if same else "length of one payload used for the bytes of another without their lengths being known equal"
+                    elif pn.get("k") == "call" and sa.get("k") == "call" and "obj" in pn and "obj" in sa and canon(pn["obj"]) == canon(sa["obj"]):
                         cls = (pn.get("callee") or {}).get("rec")
                         pair = TECMP_VIEWS.get(cls)
                         if pair and (pn["callee"]["nm"], sa["callee"]["nm"]) == pair:
